@@ -37,7 +37,8 @@ vars == <<left, right, cur, icur, hist, deep>>
 
 Fresh   == 9       \* a name no pool uses
 Missing == 99      \* a name that never exists
-HISTOSYS == 1      \* a modifier type no pool uses
+HISTOSYS == 1      \* used by S4 only: the shared name 3 carries a normsys AND a histosys there
+LUMI     == 2      \* a modifier type no pool uses
 
 -----------------------------------------------------------------------------
 (* pools *)
@@ -49,7 +50,10 @@ S1(c, dv) == [name |-> 1, d |-> 100 * c + 10 + dv,
 \* background: per-channel staterror 20+c, normfactor 2, private normsys 10+c (unsorted)
 S2(c)     == [name |-> 2, d |-> 100 * c + 21, mods |-> <<Mod(20 + c, STATERROR, 100 * c + 22), Mod(2, NORMFACTOR, 0), Mod(10 + c, NORMSYS, 100 * c + 23)>>]
 S3(c)     == [name |-> 3, d |-> 100 * c + 31, mods |-> <<Mod(3, NORMSYS, 100 * c + 32), Mod(1, NORMFACTOR, 0)>>]
+\* one NAME with two TYPES on the same sample (normsys 3 and histosys 3): selections by type and by name must not be confused
+S4(c)     == [name |-> 3, d |-> 100 * c + 41, mods |-> <<Mod(3, NORMSYS, 100 * c + 42), Mod(3, HISTOSYS, 100 * c + 43), Mod(1, NORMFACTOR, 0)>>]
 Samples(c, v) == CASE v = 1 -> <<S2(c), S1(c, 1)>>
+                   [] v = 4 -> <<S2(c), S4(c)>>
                    [] v = 2 -> <<S1(c, 2), S3(c)>>     \* S1 clashes with variant 1; S3 is new
                    [] v = 3 -> <<S3(c)>>
 ParVariant(pv) == CASE pv = 0 -> <<>>
@@ -110,7 +114,7 @@ ExistingOf(w, kind) ==
   CASE kind = "channels" -> NamesOf(w.ch) [] kind = "samples" -> AllSamples(w) [] kind = "modifiers" -> ModNames(w)
     [] kind = "modifier_types" -> ModTypes(w) [] kind = "measurements" -> NamesOf(w.meas)
 PruneSels(w, kind) ==
-  LET cand == ExistingOf(w, kind) \cup {IF kind = "modifier_types" THEN HISTOSYS ELSE Missing}
+  LET cand == ExistingOf(w, kind) \cup {IF kind = "modifier_types" THEN LUMI ELSE Missing}
   IN {s \in SUBSET cand : Cardinality(s) >= 1 /\ Cardinality(s) <= MaxSel}
 Prune(kind, sel) ==
   /\ CanStep /\ deep
